@@ -7,6 +7,9 @@ package tls
 
 import (
 	"bytes"
+	"math/rand"
+
+	"golang.org/x/crypto/sha3"
 
 	"github.com/refraction-networking/utls/internal/quicvarint"
 	"github.com/refraction-networking/utls/internal/quicvarint/protocol"
@@ -48,3 +51,34 @@ func (v *VerifPRNG) Int63n(n int64) int64            { return v.p.Int63n(n) }
 func (v *VerifPRNG) Perm(n int) []int                { return v.p.Perm(n) }
 func (v *VerifPRNG) Range(min, max int) int          { return v.p.Range(min, max) }
 func (v *VerifPRNG) FlipWeightedCoin(w float64) bool { return v.p.FlipWeightedCoin(w) }
+
+// verifStream is a sha3.ShakeHash stub that replays a fixed byte stream (then zeros),
+// so the harness can drive the prng helpers with chosen draws.
+type verifStream struct {
+	b   []byte
+	pos int
+}
+
+func (s *verifStream) Write(p []byte) (int, error) { return len(p), nil }
+func (s *verifStream) Sum(b []byte) []byte         { return b }
+func (s *verifStream) Reset()                      {}
+func (s *verifStream) Size() int                   { return 32 }
+func (s *verifStream) BlockSize() int              { return 136 }
+func (s *verifStream) Clone() sha3.ShakeHash       { c := *s; return &c }
+func (s *verifStream) Read(p []byte) (int, error) {
+	for i := range p {
+		if s.pos < len(s.b) {
+			p[i] = s.b[s.pos]
+		} else {
+			p[i] = 0
+		}
+		s.pos++
+	}
+	return len(p), nil
+}
+
+func VerifNewPRNGFromStream(stream []byte) *VerifPRNG {
+	p := &prng{randomStream: &verifStream{b: stream}}
+	p.rand = rand.New(p)
+	return &VerifPRNG{p}
+}
